@@ -33,11 +33,36 @@ def scenario(sh: Shard, seed, idx, snap, ncmd):
             n0 = len(rig.net.log)
             before = rig.sim_block
             exc = None
+            # now and then the spa's echo of the command is lost; the client's periodic refresh (run
+            # here explicitly) repairs its copy - and nothing learnt earlier may come back afterwards
+            lose_echo = expect is not None and expect.get("verb") in ("SET", "KEY") and r.random() < 0.12
+            if lose_echo:
+                st_ = {"n": 0}
+
+                def fault(rec):
+                    if rec["verb"] == "STATP" and rec["dst"] == rig.client_sock.addr and st_["n"] == 0:
+                        st_["n"] = 1
+                        return []
+                    return None
+
+                rig.net.fault = fault
             try:
                 fn()
             except Exception as e:
                 exc = e
             rig.quiesce(settle=0.35)
+            if lose_echo:
+                rig.net.fault = None
+                type(spa).refresh(spa)
+                rig.quiesce(settle=0.5, limit=40)
+                sh.count("threaded_commands_with_lost_echo_then_refresh")
+                expect = dict(expect)
+                expect.pop("readback", None) if st_["n"] and spa.struct.status_block != rig.sim_block else None
+            if expect is not None and exc is None:
+                # the client's copy mirrors the spa's block once the echo (or the refresh) is in
+                if spa.struct.status_block[256:735] != rig.sim_block[256:735]:
+                    bad = [i for i in range(256, 735) if spa.struct.status_block[i] != rig.sim_block[i]][:6]
+                    sh.violation("C13:threaded:mirror-after-echo", f"{desc}: after the echo{' was lost and the refresh ran' if lose_echo else ''} the client's block differs from the spa's at {bad}", {"scenario": label, "command": desc, "lost_echo": lose_echo})
             sent = [x for x in rig.c2s(n0) if x["verb"] in ("SPACK", "SETWC")]
             sh.evaluations += 1
             wit = {"scenario": label, "command": desc, "sent": [inner(x["data"]) for x in sent]}
@@ -159,4 +184,5 @@ def add(run, tier, seed):
     run.absorb(run_shards("checks.c13_threaded", "shard", jobs, timeout=3000))
     run.need(run.counters.get("threaded_commands_checked", 0) > 100, "threaded facade: too few commands checked")
     run.need(run.counters.get("threaded_idempotent_calls_checked", 0) > 10, "threaded facade: too few already-in-state calls")
+    run.need(run.counters.get("threaded_commands_with_lost_echo_then_refresh", 0) >= 5, "threaded facade: no command whose echo was lost and repaired by a refresh")
     run.need(run.counters.get("threaded_long_connection_scenarios", 0) >= 1, "threaded facade: the long-lived connection scenario did not run")
